@@ -259,3 +259,65 @@ def record_random_server(args):
     pcs = G.segmentation(rng, len(w))
     script = [(len(pcs) - 1, "eof")] if rng.random() < 0.7 else []
     return D.record_server_trace(tid, cfg, w, pcs, script)
+
+
+# ---------------------------------------------------------------------------------------------
+# C08: client side
+
+def client_tags(wire):
+    w = bytes(wire)
+    tags = []
+    if w[:10] in (b"HTTP/1.1 1", b"HTTP/1.0 1"):
+        tags.append("interim")
+    return tags
+
+
+def client_sig(div, streaming, wire):
+    exp, obs = div["exp"], div["obs"]
+    return {"side": "client", "why": div["why"], "exp_st": exp.get("st"), "obs_st": obs.get("st"), "rej": exp.get("rej"),
+            "streaming": streaming, "act": div["act"], "tags": client_tags(wire)}
+
+
+def client_replayer(extra, path):
+    wire = bytes(extra["wire"])
+    rng = random.Random(int(hashlib.sha1(wire).hexdigest()[:8], 16))
+    env = D.Env()
+    try:
+        for ch in schedules(wire, extra["family"], rng):
+            div = D.run_client_schedule(extra["cfg"], wire, ch, path, extra["eofs"], streaming=extra["streaming"], env=env)
+            if div:
+                div["pieces"] = [len(c) for c in ch]
+                div["sig"] = client_sig(div, extra["streaming"], wire)
+                return div
+        return None
+    finally:
+        env.close()
+
+
+def replay_client(ctx, cases, families=("cuts", "bytes", "random"), label="s2c"):
+    items = []
+    for c in cases:
+        for streaming in (False, True):
+            for fam in families:
+                items.append(({"cfg": c["cfg"], "wire": c["wire"], "eofs": c["eofs"], "family": fam, "streaming": streaming},
+                              c["trail"]))
+    t0 = time.time()
+    ctx.replay(items, client_replayer, label=label, nontrivial=lambda e, p: True)
+    ctx._phase("replay", t0)
+    runs = count_runs(items)
+    ctx.cov["connection_runs"] = ctx.cov.get("connection_runs", 0) + runs
+    ctx.cov["evaluations"] += runs - len(items)
+    return items
+
+
+def classify_client(t, bad, exp):
+    if bad is None or exp is None:
+        return {"side": "client", "why": "no-projection"}
+    e = D.Expect()
+    e.msgs = [dict(m, hs=sorted(m["hs"], key=lambda p: p[0])) for m in exp["msgs"]]
+    e.out, e.closed, e.rej, e.gzflux, e.gzdec = exp["out"], exp["closed"], exp["rej"], exp["gzflux"], exp["gzdec"]
+    e.gzover, e.maxb = exp.get("gzover", False), exp.get("maxb", 0)
+    obs = bad["obs"]
+    why = D.compare_client(e, obs, t["cfg"]["maxBody"], final=(bad["a"] == "eof"))
+    return {"side": "client", "why": why or "tlc-only", "exp_st": D.client_expect(e)["st"], "obs_st": obs.get("st"),
+            "rej": exp["rej"], "streaming": bool(t.get("streaming")), "tags": client_tags(t["wire"])}
